@@ -172,3 +172,22 @@ CLAIMS["C09"] = {
             "After removing an export, an import or a file that a parser depends on, the project must produce a diagnostic and no code.",
     "note": "Module resolution is the harness's TypeScript-style probing over a virtual project (.ts/.tsx/.d.ts/index.ts), not tsc's; chokidar / tsconfig paths are out of scope.",
 }
+
+# ------------------------------------------------------------------------------------------ C02
+SPEC["C02"] = {
+    "engine": "node",
+    "post": "post_c02",
+    "rule": "cases = (parser, printing mode: flat | contextual x 3 refPathTemplate/container configurations, JSON document): documents are members / one-edit mutants from the reference AND documents generated from the "
+            "emitted schema itself (properties / required / items / prefixItems / enum / anyOf / allOf / $ref walk). Each schema is checked against the Draft 2020-12 meta-schema, every $ref is resolved by JSON-pointer walk, "
+            "python jsonschema gives the schema's verdict per document. distinct_nontrivial = distinct (type shape, mode, validator verdicts, document shape) combinations",
+    "floor": {"quick": 5000, "thorough": 200000},
+    "workload_exclusions": ["numeric literal types beyond i64 (1e21) are not generated here: their truncation is C01's known finding C01-lit-fixed-point",
+                            "documents are handed to the validator as null-prototype objects (a JSON document has no prototype chain); string documents ending in a newline are not judged against schemas with `pattern` (python re vs ECMAScript `$`)"],
+    "assumptions": ["python jsonschema 4.26 (Draft202012Validator) is the trusted JSON Schema implementation; `pattern` is evaluated by python re (documents for which it raises are not judged)"],
+}
+CLAIMS["C02"] = {
+    "technique": "differential runtime monitor: emitted schemas judged by an independent JSON Schema implementation (python jsonschema) against the real validator's verdicts and the reference's exact membership",
+    "text": "For every schema-printable parser, flat schema() (non-recursive types) and schemaWithContext() under three reference-template configurations are printed by the real client; the assembled root document must pass the "
+            "2020-12 meta-schema and resolve every $ref; for every JSON document: schema-valid => validate() true and no undeclared key; exact null-free member => schema-valid; types with Date/bigint/Map/Set/typed arrays must throw.",
+    "note": "Trusted: python jsonschema and the reference's strict membership. Formats are annotations for jsonschema (not asserted), so format-typed strings/numbers are judged on their base type only by the schema side.",
+}
